@@ -17,6 +17,8 @@ structure ImplOp where
   /-- the masking keys offered to this call (hook queue) and how many the implementation drew -/
   masks : List Bytes := []
   mu : Nat := 0
+  /-- the call was `send` (= `write` then `flush`); `body` says `write` -/
+  isSend : Bool := false
   deriving Inhabited
 
 structure ImplCase where
@@ -583,7 +585,8 @@ def monC14 (c : ImplCase) : List String :=
       if live then
         match o.body with
         | "write" :: kind :: h :: _ =>
-          if kind == "text" || kind == "binary" || kind == "ping" then
+          if o.isSend then live := false
+          else if kind == "text" || kind == "binary" || kind == "ping" then
             let n := (unhex h).length
             let fl := hlen n + n
             let touched := o.io.any fun t => t.startsWith "w:" || t.startsWith "f:"
